@@ -41,7 +41,7 @@ FLOOR = {"quick": 400, "thorough": 8000}
 EXTS = ["colon_fence", "strikethrough", "deflist"]
 LEAF_KINDS = ["para", "para2", "heading", "code", "target", "unknown_dir", "unknown_role", "strike", "bad_option", "dupdef",
               "unref_foot", "code_nolexer"]
-TRACKED = ("block_quote", "bullet_list", "enumerated_list", "list_item", "note", "warning", "admonition", "container")
+TRACKED = ("block_quote", "bullet_list", "enumerated_list", "list_item", "note", "warning", "admonition", "container", "compound")
 
 _known = None
 
@@ -145,7 +145,7 @@ def emit(node, ctx, line0, chain, file):
             if mm:
                 longest = max(longest, len(mm.group(1)))
         f = ch * (longest + 1)
-        title = " Title" if name == "admonition" else ""
+        title = {"admonition": " Title", "container": " box"}.get(name, "")
         return [f + "{" + name + "}" + title] + head_opts + [""] * node["blank"] + inner + [""] * node["blank_end"] + [f]
     if t == "div":
         blank = node.get("blank", 0)      # blank lines between the opening fence and the content
@@ -461,6 +461,13 @@ def wrappers():
                                    lambda ch, name=name, fence=fence, opts=opts, blank=blank, be=be:
                                    {"t": "dir", "name": name, "fence": fence, "opts": opts, "blank": blank,
                                     "blank_end": be, "ch": ch}))
+    # directives whose docutils implementation creates the node without a line of its own
+    for name in ("container", "compound"):
+        for fence in "`:":
+            for blank in (0, 1):
+                ws.append((f"{name}{fence}none{blank}0",
+                           lambda ch, name=name, fence=fence, blank=blank:
+                           {"t": "dir", "name": name, "fence": fence, "opts": "none", "blank": blank, "blank_end": 0, "ch": ch}))
     return ws
 
 
